@@ -595,15 +595,17 @@ auto harris_michael_hash_map<Key, Value, Policies...>::do_get_or_emplace_lazy(Ke
     }
 
     // Try to install new node
+    // Note: cur has to stay guarded until the CAS is done - otherwise the node could get reclaimed and
+    // its memory reused for a new node that is inserted at this very position (ABA on prev).
     marked_ptr cur = info.cur.get();
-    info.cur.reset();
-    info.cur = guard_ptr(n);
     n->next.store(cur, std::memory_order_relaxed);
+    guard_ptr new_guard(n);
 
     // (9) - this release-CAS synchronizes with the acquire-load (1, 2, 3, 4, 5, 6, 7, 13)
     //       and the acquire-CAS (11, 14)
     //       it is the head of a potential release sequence containing (11, 14)
     if (info.prev->compare_exchange_weak(cur, n, std::memory_order_release, std::memory_order_relaxed)) {
+      info.cur = std::move(new_guard);
       return {iterator(this, bucket, std::move(info)), true};
     }
 
